@@ -117,6 +117,8 @@ _plain_biased = st.one_of(
     _plain,
     st.text(alphabet=st.sampled_from("\x00\x01\x7f\x80\xff09aZ $\n"), max_size=20),
     st.text(alphabet="0123456789", max_size=6),
+    # "plaintexts of any length": long ones (a $9$ string takes about three characters per plaintext character)
+    st.text(alphabet=st.characters(min_codepoint=32, max_codepoint=255), min_size=30, max_size=400),
 )
 _salt = st.one_of(
     st.sampled_from(J.ALPHABET),
